@@ -1018,6 +1018,24 @@ theorem clustering_memberships_sum_one (sqrt : Rat → Rat) (tiny huge : Rat) (n
   rw [hdiv]
   exact div_self hs
 
+/-- **the `CARTree` walk ends in a leaf**: for every tree produced by `createRoot`, `transformInternalNode` (on an
+existing node) and `transformLeafNode`, in any order and any number, `findLeaf` stops within `numberOfNodes()` steps
+at a node inside the array whose `leftId` is 0 — for every input -/
+theorem cart_walk_reaches_leaf (t : Models.Tree Rat) (h : Tree.Built t) (x : Nat → Rat) :
+    (t.node (t.findLeaf x t.nodes.length 0)).left = 0 ∧ t.findLeaf x t.nodes.length 0 < t.nodes.length :=
+  Tree.findLeaf_reaches_leaf t h.wf.1 x _ 0 h.wf.2 (by omega)
+
+/-- every one of the 16 spline taps of every output pixel is a pixel of the input image (both axes are clamped to
+`[0, len−1]` before the cast), for any `floor` and any cast that maps `[0, n]` into `{0..n}` -/
+theorem resize_taps_in_range (floor : Rat → Rat) (toNat : Rat → Nat)
+    (htn : ∀ (q : Rat) (n : Nat), 0 ≤ q → q ≤ n → toNat q ≤ n) (s : Resize) (hh : 0 < s.h) (hw : 0 < s.w) (p : Nat) :
+    ∀ t ∈ Resize.taps floor toNat s p, t.1 < s.h * s.w :=
+  Resize.taps_in_range floor toNat htn s hh hw p
+
+/-- `CMACMap`: the parameter vector is stored as it is -/
+theorem cmac_params_roundtrip (m : CMAC Rat) (p : List Rat) :
+    (m.setParams p).params = p ∧ (m.setParams p).numberOfParameters = m.numberOfParameters := ⟨rfl, rfl⟩
+
 /-! ### non-vacuity -/
 def demo : Dense Rat := { nIn := 2, nOut := 2, W := fun k j => (k + 2 * j : Nat), hasB := true, b := fun k => (k : Nat), act := .rectifier }
 example : demo.params = [0, 2, 1, 3, 0, 1] := by decide
@@ -1082,5 +1100,16 @@ example : (Conv.mk 1 1 1 1 3 3 false (fun _ => (0 : Rat)) (fun _ => 0) .linear).
 example : (clustering_memberships_sum_one id 1 1 1 1 (fun _ _ => 0) (fun _ => 0)
     (by simp [sumR, sumL, membershipKernel, centroidDist, sqr])) = (clustering_memberships_sum_one id 1 1 1 1 (fun _ _ => 0) (fun _ => 0)
     (by simp [sumR, sumL, membershipKernel, centroidDist, sqr])) := rfl
+
+/-- the cast of the exact driver (`⌊q⌋.toNat`) satisfies the hypothesis of `resize_taps_in_range` -/
+example : ∀ (q : Rat) (n : ℕ), 0 ≤ q → q ≤ n → q.floor.toNat ≤ n := by
+  intro q n _ h1
+  have h : ¬ ((n : ℤ) + 1 ≤ q.floor) := by
+    rw [Rat.le_floor_iff]; push_cast; linarith
+  omega
+/-- a tree with one split and two labelled leaves is `Built`; its walk ends in a leaf -/
+example : Tree.Built (((Tree.root : Models.Tree Rat).internal 0 0 0).leaf 1 0 |>.leaf 2 1) :=
+  .leaf _ 2 1 (.leaf _ 1 0 (.internal _ 0 0 0 .root (by decide)))
+example : (((Tree.root : Models.Tree Rat).internal 0 0 0).leaf 1 0 |>.leaf 2 1).eval (fun _ => 1) = 1 := by decide
 
 end SharkVerif.C04
